@@ -130,7 +130,8 @@ fn payload(ts: Option<u64>, seq: Option<u64>, metrics: Vec<Metric>) -> Payload {
 }
 
 pub struct Sess {
-    rt: tokio::runtime::Runtime,
+    /// None when the session lives on somebody else's runtime (component `loop`)
+    rt: Option<tokio::runtime::Runtime>,
     hub: Hub,
     feeder: EventFeeder,
     mark: usize,
@@ -149,8 +150,10 @@ pub struct Sess {
     pub ncmds: u64,
 }
 
-fn build(cfgw: &[&str]) -> (tokio::runtime::Runtime, Hub, EventFeeder) {
-    let rt = runtime();
+/// build the application on the current runtime, report it Online and run to quiescence. With
+/// `reset_clock` the mock clock reads `now` again afterwards (component `host`: the first request
+/// runs at `now`); without, the start-up costs 1 ms like every other line (component `loop`).
+async fn start_app(cfgw: &[&str], reset_clock: bool) -> (Hub, EventFeeder) {
     let now = num(cfgw, "now");
     let b = |k: &str| num(cfgw, k) == 1;
     let cfg = RebirthConfig {
@@ -171,37 +174,78 @@ fn build(cfgw: &[&str]) -> (tokio::runtime::Runtime, Hub, EventFeeder) {
     let q = num(cfgw, "q") as usize;
     let (hub, client, el, feeder) = mock_pair();
     let h2 = hub.clone();
-    rt.block_on(async {
+    set_clocks(now);
+    let hub_cb = h2.clone();
+    let (app, _client) = ApplicationBuilder::new("host", el, client, SubscriptionConfig::AllGroups)
+        .with_rebirth_config(cfg)
+        .resequence_messages(reseq)
+        .with_node_queue_size(q)
+        .on_node_created(move |node| {
+            let n = node.id().node.clone();
+            hub_cb.note(format!("{}:nodeCreated", n));
+            node.register_metric_store(RecStore { hub: hub_cb.clone(), label: n.clone() });
+            let hub_d = hub_cb.clone();
+            node.on_device_created(move |dev| {
+                let d = dev.name().to_string();
+                hub_d.note(format!("{}:devCreated({})", n, &d[1..]));
+                dev.register_metric_store(RecStore { hub: hub_d.clone(), label: format!("{}:{}", n, d) });
+            });
+        })
+        .build();
+    tokio::spawn(app.run());
+    feeder.push(Event::Online);
+    settle().await;
+    if reset_clock {
         set_clocks(now);
-        let hub_cb = h2.clone();
-        let (app, _client) = ApplicationBuilder::new("host", el, client, SubscriptionConfig::AllGroups)
-            .with_rebirth_config(cfg)
-            .resequence_messages(reseq)
-            .with_node_queue_size(q)
-            .on_node_created(move |node| {
-                let n = node.id().node.clone();
-                hub_cb.note(format!("{}:nodeCreated", n));
-                node.register_metric_store(RecStore { hub: hub_cb.clone(), label: n.clone() });
-                let hub_d = hub_cb.clone();
-                node.on_device_created(move |dev| {
-                    let d = dev.name().to_string();
-                    hub_d.note(format!("{}:devCreated({})", n, &d[1..]));
-                    dev.register_metric_store(RecStore { hub: hub_d.clone(), label: format!("{}:{}", n, d) });
-                });
-            })
-            .build();
-        tokio::spawn(app.run());
-        feeder.push(Event::Online);
-        settle().await;
-        set_clocks(now);
-    });
+    }
+    (hub, feeder)
+}
+
+fn build(cfgw: &[&str]) -> (tokio::runtime::Runtime, Hub, EventFeeder) {
+    let rt = runtime();
+    let (hub, feeder) = rt.block_on(start_app(cfgw, true));
     (rt, hub, feeder)
+}
+
+/// one delivery: run to quiescence with the clock reading unchanged; then virtual time moves on
+/// by 1 ms, and whatever timer expires at that instant is still handled inside this request
+/// (clock reading unchanged)
+pub async fn ev_tick() {
+    tokio::time::sleep(Duration::from_nanos(1)).await;
+    for _ in 0..24 {
+        tokio::task::yield_now().await;
+    }
+}
+
+/// `adv` 1 ms ticks from clock reading `now`, with the same alignment as a request: clock reading t
+/// covers the virtual millisecond that ends with the timers due at its end. The clock reads
+/// `now + adv - 1` afterwards (the caller moves it on).
+pub async fn adv_ticks(now: u64, adv: u64) {
+    for k in 0..adv {
+        set_clocks(now + k);
+        tokio::time::sleep(Duration::from_millis(1)).await;
+        for _ in 0..24 {
+            tokio::task::yield_now().await;
+        }
+    }
 }
 
 impl Sess {
     pub fn new(op: &str) -> Sess {
         let w: Vec<&str> = op.split(' ').collect();
         let (rt, hub, feeder) = build(&w);
+        Sess::with(Some(rt), hub, feeder, &w)
+    }
+
+    /// the session on the CURRENT runtime (component `loop`): call inside `block_on`; the start-up
+    /// costs 1 ms of virtual time and of the mock clock
+    pub async fn new_here(op: &str) -> Sess {
+        let w: Vec<&str> = op.split(' ').collect();
+        let (hub, feeder) = start_app(&w, false).await;
+        Sess::with(None, hub, feeder, &w)
+    }
+
+    fn with(rt: Option<tokio::runtime::Runtime>, hub: Hub, feeder: EventFeeder, w: &[&str]) -> Sess {
         let mark = hub.trace_len();
         Sess {
             rt,
@@ -215,7 +259,7 @@ impl Sess {
             stale_ts: BTreeMap::new(),
             last_applied_id: BTreeMap::new(),
             applied_ids: BTreeSet::new(),
-            reseq_on: num(&w, "rq") == 1,
+            reseq_on: num(w, "rq") == 1,
             ordered_ids: false,
             host_online: true,
             clean: false,
@@ -483,35 +527,37 @@ impl Sess {
         };
         let feeder = self.feeder.clone();
         let adv: u64 = if w[1] == "adv" { w[2].parse().unwrap() } else { 0 };
-        self.rt.block_on(async move {
+        self.rt.as_ref().expect("host session without own runtime").block_on(async move {
             set_clocks(now);
             match ev {
                 Some(e) => {
                     feeder.push(e);
-                    // run to quiescence with the clock reading `now`; then virtual time moves on
-                    // by 1 ms, and whatever timer expires at that instant is still handled
-                    // inside this request (clock reading unchanged)
-                    tokio::time::sleep(Duration::from_nanos(1)).await;
-                    for _ in 0..24 {
-                        tokio::task::yield_now().await;
-                    }
+                    ev_tick().await;
                 }
-                None => {
-                    // 1 ms ticks with the same alignment as a request: clock reading t covers the
-                    // virtual millisecond that ends with the timers due at its end
-                    for k in 0..adv {
-                        set_clocks(now + k);
-                        tokio::time::sleep(Duration::from_millis(1)).await;
-                        for _ in 0..24 {
-                            tokio::task::yield_now().await;
-                        }
-                    }
-                }
+                None => adv_ticks(now, adv).await,
             }
         });
+        self.observe(op, out).1
+    }
+
+    pub fn hub(&self) -> Hub {
+        self.hub.clone()
+    }
+
+    /// hand an event to the application's event loop (it is handled during the next tick)
+    pub fn push(&self, e: Event) {
+        self.feeder.push(e);
+    }
+
+    /// the effects since the last request: run the oracles on them for the request line `op`
+    /// (which carries the clock reading `now=`) and return them raw and canonicalised
+    pub fn observe(&mut self, op: &str, out: &mut Out) -> (Vec<(String, String)>, String) {
+        let w: Vec<&str> = op.split(' ').collect();
+        let now = num(&w, "now");
         let effs = self.effects();
         self.oracle(op, &w, &effs, now, out);
-        Self::canon(&effs)
+        let c = Self::canon(&effs);
+        (effs, c)
     }
 }
 
@@ -973,6 +1019,28 @@ fn trigger_scenarios(out: &mut Out) {
             );
         }
         // negative control: gap inside the window produces nothing
+        c.out.nontrivial();
+        c.out.count("trigger-scenario");
+    }
+    // a gap of two messages whose head is filled late: the rest of the same gap must still time
+    // out one timeout after the gap opened (not one timeout after the partial fill)
+    {
+        let mut c = Case::begin(out, cfg, t0);
+        c.out.set_desc("trigger partial-fill-still-times-out".into());
+        c.op(&birth);
+        c.op(&format!("ev n1 ndata seq=3 ts={} id=4 ans=ok", t0 + 3)); // gap 1,2 opens here
+        c.op("adv 60");
+        c.op(&format!("ev n1 ndata seq=1 ts={} id=2 ans=ok", t0 + 1)); // fills the head only
+        let before = c.sess.ncmds;
+        c.op("adv 45"); // 100 ms after the gap opened have now passed
+        let got = c.sess.ncmds - before;
+        if got != 1 {
+            c.out.fail(
+                "C07:trigger-requests-rebirth",
+                "gap-timeout-after-partial-fill",
+                format!("seq 2 missing for more than the reorder timeout (100 ms) after the gap opened, {} NCMD(s) sent", got),
+            );
+        }
         c.out.nontrivial();
         c.out.count("trigger-scenario");
     }
